@@ -202,6 +202,20 @@ def translate(repo: Path) -> dict:
     if "modify_stat: os.stat_result | None = os.lstat(full_path)" not in src_uw or \
             src_uw.index("verify_leading_dirs(path, [], repo_path)") > src_uw.index("modify_stat: os.stat_result | None = os.lstat(full_path)"):
         raise T.TranslateError("update_working_tree: add/modify phase no longer verifies leading dirs before lstat")
+    # every verify_leading_dirs call of update_working_tree / _lstat_tracked_path gets a FRESH empty list
+    fresh = True
+    ncalls = 0
+    for fn_node in [uw] + ([T.find_def(tree, "_lstat_tracked_path")] if delete_guarded else []):
+        for n in ast.walk(fn_node):
+            if isinstance(n, ast.Call) and ast.unparse(n.func) == "verify_leading_dirs":
+                ncalls += 1
+                if len(n.args) != 3 or n.keywords:
+                    raise T.TranslateError(f"verify_leading_dirs call with unexpected arguments: {ast.unparse(n)}")
+                if not (isinstance(n.args[1], ast.List) and not n.args[1].elts):
+                    fresh = False     # a cache shared between paths/phases: theorem uwt_write_confined will not compile
+    if ncalls != (2 if delete_guarded else 1):
+        raise T.TranslateError(f"update_working_tree: {ncalls} verify_leading_dirs calls")
+    # patch.py: both paths of a rename/copy header are vetted before anything is read or written
     # patch.py: every open(<target>, "wb") of the apply code is directly preceded by _remove_symlink_at_target(<target>)
     ptree = T.module_ast(repo / "dulwich" / "patch.py")
     n_wb = 0
@@ -215,6 +229,16 @@ def translate(repo: Path) -> dict:
             if prev != f"_remove_symlink_at_target({m.group(1)})":
                 raise T.TranslateError(f"patch.{fn}: open({m.group(1)}, 'wb') is not preceded by _remove_symlink_at_target "
                                        f"(a symlink at the patch target would be written through)")
+    rc_src = ast.unparse(T.find_def(ptree, "_apply_rename_or_copy"))
+    for frag in ("src_fs_path = _validate_patch_target(r, repo_path_bytes, src_stripped)",
+                 "dst_fs_path = _validate_patch_target(r, repo_path_bytes, dst_stripped)"):
+        if frag not in rc_src:
+            raise T.TranslateError(f"patch._apply_rename_or_copy: `{frag}` not found (rename/copy header path not vetted)")
+    if rc_src.index("dst_fs_path = _validate_patch_target") > rc_src.index("open("):
+        raise T.TranslateError("patch._apply_rename_or_copy: destination vetted after the first open()")
+    ap_src = ast.unparse(T.find_def(ptree, "apply_patches"))
+    if "fs_path = _validate_patch_target(r, repo_path_bytes, file_path)" not in ap_src:
+        raise T.TranslateError("patch.apply_patches: target path no longer vetted by _validate_patch_target")
     if n_wb != 3:
         raise T.TranslateError(f"patch.py: expected 3 open(..., 'wb') in the apply code, found {n_wb}")
     rs = ast.unparse(T.find_def(ptree, "_remove_symlink_at_target"))
@@ -269,6 +293,8 @@ def cleanupExecTest : Nat := {cm_test}
 def cleanupExecBits : Nat := {cm_or}
 /-- does `update_working_tree` lstat old paths (delete phase, both pre-checks) through `_lstat_tracked_path`? -/
 def deleteGuarded : Bool := {str(delete_guarded).lower()}
+/-- does every `verify_leading_dirs` call of `update_working_tree` (and `_lstat_tracked_path`) get a fresh `[]`? -/
+def uwtFreshCache : Bool := {str(fresh).lower()}
 end Dulwich.Gen.PathSafe
 """
     return {"PathSafe": src}
@@ -494,6 +520,7 @@ ENTITLED = {
     "reset_hard": ("index",) + _REFS, "reset_mixed": ("index",) + _REFS, "reset_soft": _REFS,
     "checkout": ("index",) + _REFS, "build_index": ("index",), "checkout_paths": ("index",),
     "stash_pop": ("index", "refs/stash", "logs/"), "patch": ("index",), "patch_to": ("index",),
+    "pull": ("index", "FETCH_HEAD") + _REFS,
 }
 _RE_HEAD = re.compile(rb"^(ref: refs/[\w/.-]+|[0-9a-f]{40})\n$")
 _RE_REF = re.compile(rb"^[0-9a-f]{40}\n$")
@@ -754,6 +781,13 @@ def impl_scenario(a):
         op = st["op"]
         pre_links = [[x[0], x[3]] for x in _wt_listing(wt) if x[1] == "link"]
         old_index, old_head = _old_paths(r, "index"), _old_paths(r, "head")
+        if op == "pull" and os.path.isdir(os.path.join(base, "src")):
+            # (harness side, before the snapshot) the clone source publishes a commit with tree t on top of our HEAD
+            sr = Repo(os.path.join(base, "src"))
+            try:
+                sr.refs[b"refs/heads/pullme"] = _commit(sr.object_store, commits[st["t"]][0], [r.refs[b"HEAD"]], b"pull me")
+            finally:
+                sr.close()
         before = _snap(base)
         out = "ok"
         try:
@@ -775,6 +809,11 @@ def impl_scenario(a):
                     old = None
                 r.refs.set_if_equals(b"refs/stash", old, cs, message=b"WIP on x")
                 porcelain.stash_pop(r)
+            elif op == "pull":
+                # a commit with tree t on top of the local HEAD, published by the clone source, then a real pull
+                src = os.path.join(base, "src")
+                porcelain.pull(r, src, refspecs=[b"refs/heads/pullme"], force=bool(st.get("force")),
+                               errstream=io.BytesIO(), outstream=io.BytesIO())
             elif op == "patch":
                 porcelain.apply_patch(r, io.BytesIO(bytes.fromhex(st["patch"])), strip=st.get("strip", 1))
             elif op == "patch_to":
@@ -959,6 +998,60 @@ def impl_uwt_delete(a):
     return {"out": out, "walk": walk}
 
 
+
+def impl_uwt_write(a):
+    """One real update_working_tree(None -> tree) (adds only) on a prepared directory tree; returns the change list in
+    the order the real code applies it, the outcome class and a walk of the sandbox."""
+    import dulwich.index as I
+    from dulwich.diff_tree import tree_changes
+    from dulwich.repo import Repo
+    base = a["base"]
+    assert base.startswith(a["scratch"] + os.sep) and "/../" not in base
+    os.umask(0o022)
+    if os.path.exists(base):
+        shutil.rmtree(base)
+    bb = os.fsencode(base)
+    wt = os.path.join(bb, bytes.fromhex(a["root"]))
+    os.makedirs(wt)
+    r = Repo.init(os.fsdecode(wt))
+    _prep_nodes(bb, a["nodes"])
+
+    def absolutise(spec):
+        out = []
+        for e in spec:
+            e = dict(e)
+            if "link" in e and bytes.fromhex(e["link"]).startswith(b"/"):
+                e["link"] = (bb + bytes.fromhex(e["link"])).hex()
+            if "tree" in e:
+                e["tree"] = absolutise(e["tree"])
+            out.append(e)
+        return out
+    tid = _write_tree(r.object_store, absolutise(a["tree"]))
+    changes = list(tree_changes(r.object_store, None, tid))
+    entries = []
+    for ch in changes:
+        e = ch.new
+        c = r.object_store[e.sha].as_raw_string()
+        if (e.mode & 0o170000) == 0o120000 and c.startswith(bb + b"/"):
+            c = c[len(bb):]
+        entries.append([e.path.hex(), e.mode, c.hex()])
+    vf = {"d": I.validate_path_element_default, "n": I.validate_path_element_ntfs}[a["v"]]
+    os.chdir(base)
+    out = "ok"
+    try:
+        I.update_working_tree(r, None, tid, change_iterator=iter(changes), validate_path_element=vf,
+                              allow_overwrite_modified=True)
+    except I.InvalidPathError:
+        out = "InvalidPath"
+    except OSError:
+        out = "oserror"
+    walk = _walk_files(bb)
+    r.close()
+    os.chdir(a["scratch"])
+    shutil.rmtree(base, ignore_errors=True)
+    return {"entries": entries, "out": out, "walk": walk}
+
+
 # ------------------------------------------------------------------------------------------------
 # parent side: scenario construction, the oracle in the property's words, failure classification
 
@@ -1098,7 +1191,7 @@ def classify(step: dict, sr: dict, base: str):
         if typ == "link":
             links.setdefault(bytes.fromhex(relhex), bytes.fromhex(extra))
     op = sr["op"]
-    if op in ("reset_hard", "checkout") and removed and not changed:
+    if op in ("reset_hard", "checkout", "pull") and removed and not changed:
         old = [bytes.fromhex(p) for p in (sr["old_index"] if op == "reset_hard" else sr["old_head"])]
         allowed = set()
         for p in old:
@@ -1204,11 +1297,59 @@ def _patch_mod(path: bytes, old: bytes, new: bytes) -> bytes:
     return (b"diff --git a/" + path + b" b/" + path + b"\n--- a/" + path + b"\n+++ b/" + path + b"\n@@ -1 +1 @@\n-" + old + b"+" + new)
 
 
+UNSAFE_PATHS = [b".git/hooks/pre-commit", b".GIT/hooks/pwn", b"../outside_dir/pwned", b"d/pwned", b"/ABS/outer/abs_pwn",
+                b"git~1/hooks/pwn", b".git /hooks/pwn", b"lnk", b"x/../../outside_dir/pwn2", b"g/pwn", b"../outside_dir/x", b"d/x"]
+RC_SLOTS = ("diff_a", "diff_b", "minus", "plus", "from", "to")
+
+
+def _patch_rc(kind: str, names: dict, body: str, mode: bool, prefixed: bool) -> bytes:
+    """A rename/copy patch whose path-bearing header lines are given one by one (they may DISAGREE)."""
+    pre_a, pre_b = (b"a/", b"b/") if prefixed else (b"", b"")
+    out = b"diff --git a/" + names["diff_a"] + b" b/" + names["diff_b"] + b"\n"
+    if mode:
+        out += b"old mode 100644\nnew mode 100755\n"
+    out += b"similarity index " + (b"100%" if body != "hunks" else b"80%") + b"\n"
+    out += kind.encode() + b" from " + pre_a + names["from"] + b"\n" + kind.encode() + b" to " + pre_b + names["to"] + b"\n"
+    if body in ("headers", "hunks"):
+        out += b"--- a/" + names["minus"] + b"\n+++ b/" + names["plus"] + b"\n"
+    if body == "hunks":
+        out += b"@@ -1 +1 @@\n-src\n+dst\n"
+    return out
+
+
+def rc_patch_scenarios():
+    """Every unsafe path in every header slot of rename/copy patches (pure, with a harmless ---/+++ pair and no hunks,
+    with hunks; with and without mode change; from/to lines bare or a/-b/-prefixed), 12 patches per scenario."""
+    tree = mk_tree([KEEP] + [(b"s%d" % i, "f", b"src\n") for i in range(12)] +
+                   [(b"d", "l", b"../outside_dir"), (b"lnk", "l", b".git/canary"), (b"g", "l", b".git/canary_dir")])
+    patches = []
+    k = 0
+    for kind in ("rename", "copy"):
+        for body in ("none", "headers", "hunks"):
+            for prefixed in (True, False):
+                for slot in RC_SLOTS:
+                    for U in UNSAFE_PATHS:
+                        i = len(patches) % 12
+                        names = {"diff_a": b"s%d" % i, "diff_b": b"n%d" % i, "minus": b"s%d" % i, "plus": b"n%d" % i,
+                                 "from": b"s%d" % i, "to": b"n%d" % i}
+                        names[slot] = U
+                        k += 1
+                        patches.append((f"{kind}:{body}:{slot}", _patch_rc(kind, names, body, k % 2 == 0, prefixed)))
+    out = []
+    for j in range(0, len(patches), 12):
+        chunk = patches[j:j + 12]
+        steps = [_step("reset_hard", 0)] + [{"op": "patch", "patch": pt.hex()} for _, pt in chunk]
+        out.append(("rcpatch:" + chunk[0][0], {"trees": [tree], "steps": steps, "cfg": {}}))
+    return out
+
+
 FIRST_OPS = ["clone", "reset_hard", "checkout", "checkout_force", "build_index", "stash_pop", "clone_nc"]
-NEXT_OPS = ["reset_hard", "checkout", "checkout_force", "build_index", "stash_pop", "reset_mixed", "reset_soft", "patch_to"]
+NEXT_OPS = ["reset_hard", "checkout", "checkout_force", "build_index", "stash_pop", "reset_mixed", "reset_soft", "patch_to", "pull_force"]
 
 
 def _step(op: str, t: int, i=None) -> dict:
+    if op == "pull_force":
+        return {"op": "pull", "t": t, "force": 1}
     if op == "checkout_paths":
         return {"op": op, "t": t, "paths": [p.hex() for p in i]}
     if op == "checkout_force":
@@ -1229,8 +1370,19 @@ def fixed_scenarios():
         Tf = mk_tree([KEEP, (b"d", "f", b"file d\n")])
         Te = mk_tree([KEEP])
         Tu = mk_tree([KEEP, (b"d", "l", T), (b"zz/.git/evil", "f", b"evil\n")])
-        trees = [Tl, Td, Tf, Te, Tu]
+        # d as a symlink AND flat entries whose NAMES lie below d (not a well-formed tree in git's sense; dulwich
+        # accepts a '/' inside an entry name and validate_path splits on it)
+        Tls = [E_blob(b"keep", b"keep\n"), E_link(b"d", T), E_blob(b"d/y", b"below link\n"), E_blob(b"d/sub/z", b"below link\n"),
+               E_blob(b"d/hooks/pwn2", b"#!/bin/sh\n", 0o100755)]
+        Tls2 = [E_blob(b"keep", b"keep\n"), E_link(b"d", T), E_blob(b"d/y", b"below link\n")]
+        trees = [Tl, Td, Tf, Te, Tu, Tls, Tls2]
         seqs = [
+            # directory d with files, then a tree in which d is a symlink and later entries lie below d: the delete
+            # phase verifies/removes d, the write phase creates the link and must re-verify for d/y
+            [("reset_hard", 1), ("reset_hard", 6)], [("reset_hard", 1), ("reset_hard", 5)], [("clone", 1), ("checkout_force", 6)],
+            [("reset_hard", 1), ("checkout_force", 5)], [("clone", 1), ("pull_force", 6)], [("clone", 1), ("pull", 5)],
+            [("reset_hard", 1), ("stash_pop", 6)], [("build_index", 1), ("build_index", 5)], [("reset_hard", 1), ("patch_to", 6)],
+            [("clone", 5)], [("reset_hard", 6)], [("clone_nc", 1), ("checkout_force", 6)],
             # symlink then directory of the same name
             [("reset_hard", 0), ("reset_hard", 1)], [("clone", 0), ("checkout_force", 1)], [("build_index", 0), ("build_index", 1)],
             [("reset_hard", 0), ("stash_pop", 1)], [("checkout", 0), ("patch_to", 1)], [("clone", 0), ("checkout", 1)],
@@ -1288,6 +1440,7 @@ def fixed_scenarios():
             out.append((f"rawpatch:{effective_v(cfg)}", {"trees": [mk_tree([KEEP])],
                                                         "steps": [_step("reset_hard", 0), {"op": "patch", "patch": _patch_new(R).hex()},
                                                                   {"op": "patch", "patch": _patch_new(R).hex(), "strip": 0}], "cfg": cfg}))
+    out += rc_patch_scenarios()
     for m in MODES:
         spec = [E_blob(b"keep"), E_blob(b"f", b"x\n", m), E_tree(b"d", [E_blob(b"g", b"y\n", m)])]
         for op in ("clone", "reset_hard", "build_index", "stash_pop", "patch_to"):
@@ -1317,7 +1470,10 @@ def random_scenario(rng):
                 sub = rng.choice([b"l2", b"sub"])
                 p, it = d + b"/" + sub, (d + b"/" + sub, "l", rng.choice(LINK_TARGETS + [b"../..", b"../../outside_dir"]))
             elif k < 0.63:
-                r = rng.choice(RAW_NAMES)
+                r = rng.choice(RAW_NAMES + [d + b"/y", d + b"/sub/z", d + b"/x", d + b"/l2/q"] * 3)
+                if r.startswith(d + b"/"):
+                    items.append((r, "F", b"flat name below " + d + b"\n"))
+                    continue
                 p, it = r, (r, "F", b"raw\n")
             elif k < 0.7:
                 u = rng.choice(UNSAFE_NAMES)
@@ -1338,6 +1494,8 @@ def random_scenario(rng):
         op = rng.choice(FIRST_OPS if i == 0 else NEXT_OPS)
         t = rng.randrange(len(trees))
         steps.append(_step(op, t, rng.randrange(len(trees))))
+    if steps[0]["op"] not in ("clone", "clone_nc"):
+        steps = [st if st["op"] != "pull" else _step("reset_hard", st["t"]) for st in steps]
     if rng.random() < 0.15:
         steps.append({"op": "patch", "patch": _patch_new(rng.choice([b"d", b"e", b"lnk", b"d/x", b"lnk/pwn", b"d/sub/pwn"])).hex()})
     cfg = rng.choice([{}, {}, {}, {"protectNTFS": False}, {"protectHFS": True}, {"symlinks": True, "filemode": False}])
@@ -1375,6 +1533,7 @@ def run(ctx: core.Ctx):
     _stream_exhaustive(ctx)
     _stream_bift(ctx)
     _stream_uwt_delete(ctx)
+    _stream_uwt_write(ctx)
     _stream_sequences(ctx)
 
 
@@ -1383,7 +1542,7 @@ BIFT_TARGETS = [b"../outside_dir", b"..", b"/outer/outside_dir", b"e", b"d", b".
                 b"../../outer/outside_dir/sub", b"loop"]
 
 
-def gen_bift_case(rng):
+def gen_bift_case(rng, gitlinks=True):
     """initial directory tree (work tree `outer/wt` + canaries + leftovers of an earlier checkout) and a tree."""
     nodes = [[b"outer".hex(), "d"], [b"outer/wt".hex(), "d"], [b"outer/outside_dir".hex(), "d"],
              [b"outer/outside_dir/sub".hex(), "d"], [b"outer/outside_dir/x".hex(), "f", 0o644, b"precious".hex()],
@@ -1421,14 +1580,19 @@ def gen_bift_case(rng):
             p, it = n, (n, "l", rng.choice(BIFT_TARGETS))
         elif k < 0.3:
             p, it = n, (n, "f", rng.choice([b"data\n", b"new", b"old"]), rng.choice(MODES))
-        elif k < 0.35:
+        elif k < 0.35 and gitlinks:
             p, it = n, (n, "g", None)
         elif k < 0.42:
             r = rng.choice([b"../outside_dir/pwn", b"d/../../outside_dir/pwn", b".git/x", b"d/.GIT/x", b"d//x", b"./x", b"d/.git /x", b"git~1"])
             p, it = r, (r, "F", b"raw")
+        elif k < 0.5:
+            # a FLAT entry whose name contains '/', below a name that may be a symlink/file entry of the same tree
+            r = n + b"/" + rng.choice([b"y", b"sub/z", b"x", b"pwn"])
+            items.append((r, "F", rng.choice([b"raw", b"precious"]), rng.choice(MODES)))
+            continue
         else:
             leaf = rng.choice([b"f", b"x", b"sub/y", b"sub/z", b"l", b"l/q", b"x/deep/er", b"sub"])
-            kind = rng.choice(["f", "f", "f", "l", "g"])
+            kind = rng.choice(["f", "f", "f", "l", "g"] if gitlinks else ["f", "f", "f", "l"])
             p = n + b"/" + leaf
             it = (p, kind, rng.choice(BIFT_TARGETS) if kind == "l" else rng.choice([b"data\n", b"new", b"old", b"precious"]),
                   rng.choice(MODES))
@@ -1555,6 +1719,55 @@ def _stream_uwt_delete(ctx, scale=1):
         w.close()
 
 
+
+def _stream_uwt_write(ctx, scale=1):
+    """(b'') the add/modify phase of update_working_tree (blob/symlink entries): model `uwtWritePhaseG` vs the real
+    function on real directory trees, node by node; built-in oracle: nothing outside the work tree changes."""
+    w = core.Worker("py", mem_mb=2048)
+    try:
+        cases = [gen_bift_case(ctx.rng, gitlinks=False) for _ in range(ctx.budget(300) * scale)]
+        lines, idx = [], []
+        for i, c in enumerate(cases):
+            rep = w.ask({"mod": MOD, "op": "uwt_write", "args": {**c, "base": str(ctx.scratch / "p" / "q" / f"w{i}"),
+                                                                "scratch": str(ctx.scratch)}}, timeout=60)
+            if "r" not in rep:
+                ctx.notes.append(f"uwt_write case did not complete: {str(rep)[:200]}")
+                continue
+            r = rep["r"]
+            nodes = _node_tokens(c["nodes"])
+            ents = [f"{p or '-'}:{m}:{cc or '-'}" for p, m, cc in r["entries"]]
+            queries = sorted(set(r["walk"]) | {n[0] for n in c["nodes"]})
+            lines.append(" ".join(["c17.uwtw", c["v"], c["root"], str(len(nodes))] + nodes + [str(len(ents))] + ents + queries))
+            idx.append((c, r))
+        outs = ctx.driver.batch(lines)
+        for (c, r), o in zip(idx, outs):
+            parts = o.split(" ")
+            if len(parts) < 2:
+                raise core.InfraError(f"driver answered {o!r} to c17.uwtw")
+            status = {"ok": "ok", "InvalidPath": "InvalidPath"}.get(parts[0], "oserror")
+            model = dict(x.split("=", 1) for x in parts[2:] if "=" in x)
+            real = {k: r["walk"].get(k, "-") for k in model}
+            ctx.count("uwt.write.model", json.dumps(c, sort_keys=True), True,
+                      f"{c['v']}:{r['out']}:log{min(int(parts[1]), 9) if parts[1].isdigit() else '?'}")
+            if status != r["out"] or model != real:
+                diff = {k: (model[k], real[k]) for k in model if model[k] != real[k]}
+                ctx.disagree("uwt.write.model", {"case": c, "entries": r["entries"]}, f"{parts[0]} {diff}"[:600], r["out"], "py")
+            init = {}
+            for n in c["nodes"]:
+                init[n[0]] = "d" if n[1] == "d" else (f"f:{n[2]}:{n[3] or '-'}" if n[1] == "f" else f"l:{n[2] or '-'}")
+            for k in set(init) | set(r["walk"]):
+                rel = bytes.fromhex(k)
+                if rel == b"outer/wt" or rel.startswith(b"outer/wt/"):
+                    continue
+                if init.get(k) != r["walk"].get(k):
+                    ctx.oracle_fail("uwt.write.model", {"uwt_write_case": c, "path": k},
+                                    f"update_working_tree (write phase) changed {rel!r} outside the work tree: "
+                                    f"{init.get(k)} -> {r['walk'].get(k)}", None)
+                    break
+    finally:
+        w.close()
+
+
 def _stream_sequences(ctx, scale=1, full=False, stream_prefix="seq"):
     """(c) the direct oracle: sequences of hostile trees through the real entry points, snapshot before/after."""
     w = core.Worker("py", mem_mb=2048)
@@ -1592,6 +1805,7 @@ def search(ctx: core.Ctx):
         return
     _stream_bift(ctx, scale=4)
     _stream_uwt_delete(ctx, scale=3)
+    _stream_uwt_write(ctx, scale=3)
 
 
 def replay(ctx: core.Ctx, data: dict) -> int:
